@@ -734,6 +734,9 @@ def jobs(tier, seed):
         for part in range(nparts):
             js.append({"kind": "enum", "batch": b, "sample": rel, "what": "sample-truncate", "part": part, "nparts": nparts, "stride": 1 if tier == "thorough" else 20, "phase": seed, "step": 11})
             b += 1
+    # the truncated samples are the largest inputs, where superlinear work shows first: they run before the fault
+    # grid so that a slow tree cannot push them beyond the wall-clock cap
+    js.sort(key=lambda j: (0 if j["what"] == "sample-truncate" else 1, j["batch"]))
     return js
 
 
